@@ -213,7 +213,7 @@ def arm_rows():
         amb = (lambda f, c: f["n"] == 15) if kind in ("ADD", "SUB") else None
         R.append(Row(suffix_i, A32, "cccc001%sSnnnnddddiiiiiiiiiiii" % b4(opc), guard=notsubs,
                      operands=(lambda wc: lambda f, c: dict(d=f["d"], n=f["n"], setflags=T(f["S"]), **arm_imm(f, c, wc)))(wc),
-                     unpredictable=amb, sem=sem_dp(kind), group=G))
+                     unpredictable=amb, alt=("AdrA1", "AdrA2") if amb else (), sem=sem_dp(kind), group=G))
         R.append(Row(suffix_r, A32, "cccc000%sSnnnnddddiiiiitt0mmmm" % b4(opc), guard=notsubs,
                      operands=lambda f, c: dict(d=f["d"], n=f["n"], m=f["m"], setflags=T(f["S"]), **imm_shift(f)),
                      sem=sem_dp(kind), group=G))
